@@ -230,7 +230,13 @@ def check(case, mon, ctx):
         mon.violation('non-degenerate-line-is-actually-cropped', {'swallowed_in': name, 'exception': exc, 'crop_shape': list(crop.shape)})
         return
     hh = [float(x) for x in heights_object(case)]       # pristine values (as rounded by the container's dtype) for the oracle
-    c = eng.get_crop_inputs(pts, hh, H).astype(np.float64)
+    c = eng.get_crop_inputs(pts, heights_object(case), H).astype(np.float64)       # the grid of the crop above: same numbers in the same container
+
+    def width_is_borderline():
+        """the column count int(length * H / band) flips when the heights change by one part in 1e9: its argument is within round-off of an integer"""
+        lo = eng.get_crop_inputs(pts, [h * (1 - 1e-9) for h in hh], H).shape[1]
+        hi = eng.get_crop_inputs(pts, [h * (1 + 1e-9) for h in hh], H).shape[1]
+        return lo != hi
     mon.count('grids_checked')
     if len(pts) > 16:
         mon.count('many_point_grids')
@@ -240,7 +246,11 @@ def check(case, mon, ctx):
     band = (hh[0] + hh[1]) * scale
     step = band / H
     if crop.shape[1] != Ww:
+        if abs(crop.shape[1] - Ww) == 1 and width_is_borderline():
+            mon.skip_ambiguous('near-integer column count')
+            return
         mon.violation('crop-width-equals-grid-width', {'crop': list(crop.shape), 'grid': [Hh, Ww]})
+        return
     seg = np.linalg.norm(np.diff(pts, axis=0), axis=1).sum()
     exp_w = seg / step
     mon.observe_max('width_deficit_columns', exp_w - Ww)
@@ -321,10 +331,13 @@ def check(case, mon, ctx):
         big = np.zeros((img.shape[0] + 2 * dy, img.shape[1] + 2 * dx, 3), np.uint8)
         big[dy:dy + img.shape[0], dx:dx + img.shape[1]] = img
         with contextlib.redirect_stdout(io.StringIO()):
-            crop2 = eng.crop(big, pts + [dx, dy], hh)
+            crop2 = eng.crop(big, pts + [dx, dy], heights_object(case))
         mon.count('shift_compared')
         if crop2.shape != crop.shape:
-            mon.violation('same-pixels-when-shifted-together', {'shape': list(crop2.shape), 'expected': list(crop.shape)})
+            if crop2.shape[0] == crop.shape[0] and abs(crop2.shape[1] - crop.shape[1]) == 1 and width_is_borderline():
+                mon.skip_ambiguous('near-integer column count')
+            else:
+                mon.violation('same-pixels-when-shifted-together', {'shape': list(crop2.shape), 'expected': list(crop.shape)})
         else:
             d = float(np.abs(crop2.astype(int) - crop.astype(int)).max())
             mon.observe_max('shift_diff', d)
